@@ -360,8 +360,27 @@ def rule_L6(ctx):
                 ctx.ob("L6", call, f"SampleParamLoopPoint.{fld} receives the record's {fld}", ok, "" if ok else f"receives {g}", inst=f"LoopPoint.{fld}")
     # (c) itemize
     it = ctx.fn("smpl_extract/elements.py", "LeafElement.itemize", "L6")
-    lists = [n for n in own_nodes(it) if isinstance(n, ast.Assign) and isinstance(n.value, ast.List)]
-    vals = sorted(e.value for n in lists for e in n.value.elts if isinstance(e, ast.Constant))
+    # the exclusion list as it reaches is_public_field: folded through local copies, list(...) / tuple(...) wrappers and module
+    # or class level tables
+    from .sem import single_defs as _sdi
+    _di = _sdi(it)
+    excl_calls = [c for c in own_nodes(it) if isinstance(c, ast.Call) and isinstance(c.func, ast.Attribute) and c.func.attr == "is_public_field" and len(c.args) + len(c.keywords) >= 2]
+    vals = None
+    if len(excl_calls) == 1:
+        ea = excl_calls[0].args[1] if len(excl_calls[0].args) > 1 else next((k.value for k in excl_calls[0].keywords if k.arg == "excluded_keys"), None)
+        for _ in range(4):
+            if isinstance(ea, ast.Name) and ea.id in _di:
+                ea = _di[ea.id]
+            elif isinstance(ea, ast.Call) and isinstance(ea.func, ast.Name) and ea.func.id in ("list", "tuple", "sorted", "set", "frozenset") and len(ea.args) == 1 and not ea.keywords:
+                ea = ea.args[0]
+            else:
+                break
+        try:
+            v_ = ctx.folder.ev(ea, it._module) if ea is not None else None
+        except Exception:
+            v_ = None
+        if isinstance(v_, (list, tuple, set, frozenset)) and all(isinstance(x, str) for x in v_):
+            vals = sorted(v_)
     ok = vals == sorted(["name", "path", "type_id", "type_name", "safe_name", "export_name"])
     ctx.ob("L6", it, "itemize hides only the bookkeeping keys (name, path, type_id, type_name, safe_name, export_name)", ok, f"{vals}", inst="itemize-exclude")
     comp = [n for n in own_nodes(it) if isinstance(n, ast.DictComp)]
@@ -385,7 +404,7 @@ def rule_L6(ctx):
                     ok = False
                     continue
                 pr = _wi(ctx, it, icfg, path)
-                pub = next((t_ for c_, t_ in _afi(pr) if re.fullmatch(r"truthy\(self\.is_public_field\(" + re.escape(v) + r"~?\.name,.+\)\)", c_)), None)
+                pub = next((t_ for c_, t_ in _afi(pr) if re.fullmatch(r"truthy\(self\.is_public_field\(" + re.escape(v) + r"\.name,.+\)\)", c_.replace("~", ""))), None)
                 stores = [(evaluator(ctx, it, s_.env).ev(s_.ast.targets[0].slice).key().replace("~", ""), evaluator(ctx, it, s_.env).ev(s_.ast.value).key().replace("~", ""))
                           for s_ in pr.steps if s_.kind == "stmt" and isinstance(s_.ast, ast.Assign) and len(s_.ast.targets) == 1 and isinstance(s_.ast.targets[0], ast.Subscript)]
                 if pub is True:
